@@ -109,7 +109,7 @@ def oracle_serve(pid, sc, ob):
         return None
     if pid == "C12":
         for i, e in enumerate(evs):
-            if e["eos"] and e["kind"] != "N":
+            if e["eos"] and (e["kind"] == "E" or (e["kind"] == "D" and len(e["data"]) > 0)) and not sc.get("expect_fault"):
                 return "is_end_stream() was true but the next poll yielded %s (step %d)" % ({"D": "data", "E": "an error", "P": "Pending"}[e["kind"]], i)
         if ft is not None and evs[ft]["kind"] == "N":
             tot = sum(len(e["data"]) for e in evs[:ft] if e["kind"] == "D")
@@ -204,6 +204,7 @@ def fam_single_faults():
 FAMILIES = {
     ("streams", "MultipartStream"): ("serve_witness", fam_multipart_faults),
     ("streams", "ExactLenStream"): ("serve_witness", fam_single_faults),
+    ("streams", "Body"): ("serve_witness", lambda: fam_glue()),
 }
 
 
@@ -814,6 +815,43 @@ def try_upgrade(pid, ob, repo=None):
                                    "observation": ln, "violates": pid, "what": why, "searched": len(scs)}
             return
     ob["native_replay"] = {"status": "no failing input among %d scenarios" % len(scs), "reproduced": False, "searched": len(scs)}
+
+
+def fallback(pid, unit, repo=None):
+    """Bounded native stand-in for a unit the verifier could not decide (lost anchor, unsupported construct, rlimit):
+    run every witness family of the unit against the real code and apply the oracles of property `pid`.
+    Returns a native_replay record for the first violating scenario, or a record with reproduced=False."""
+    gens = []
+    for (u, _), (test, gen) in FAMILIES.items():
+        if u == unit and (test, gen) not in gens:
+            gens.append((test, gen))
+    searched = 0
+    seen_gen = set()
+    for test, gen in gens:
+        if id(gen) in seen_gen:
+            continue
+        seen_gen.add(id(gen))
+        probe = {"unit": unit, "fn": None}
+        scs = gen()
+        is_stream = test == "stream_witness"
+        mk = stream_line if is_stream else scenario_line
+        lines = run_native(test, [mk(x) for x in scs], repo)
+        searched += len(scs)
+        if pid == "C15" and not is_stream:
+            byid = {sc["id"]: (sc, parse_obs(ln)) for sc, ln in zip(scs, lines)}
+            for i, (sc, o) in byid.items():
+                if i + ":h" in byid:
+                    why = oracle_pair_c15(sc, o, *byid[i + ":h"])
+                    if why:
+                        sh = byid[i + ":h"][0]
+                        return {"status": "reproduced on the real code", "reproduced": True, "test": test, "scenario": sh, "scenario_line": mk(sh),
+                                "paired_with": mk(sc), "violates": pid, "what": why, "searched": searched, "bounded": "witness family %s" % gen.__name__}
+        for sc, ln in zip(scs, lines):
+            why = oracle_stream(pid, sc, parse_stream_obs(ln)) if is_stream else all_serve_oracles(pid, sc, parse_obs(ln))
+            if why:
+                return {"status": "reproduced on the real code", "reproduced": True, "test": test, "scenario": sc, "scenario_line": mk(sc),
+                        "observation": ln, "violates": pid, "what": why, "searched": searched, "bounded": "witness family %s" % getattr(gen, "__name__", "family")}
+    return {"status": "no failing input among %d scenarios" % searched, "reproduced": False, "searched": searched}
 
 
 def replay_file(path, repo=None):
